@@ -173,7 +173,9 @@ func genC19Proxy(repo string) (string, string, error) {
 		rcInit := false
 		ast.Inspect(fd.Body, func(x ast.Node) bool {
 			if is, ok := x.(*ast.IfStmt); ok && is.Init != nil {
+				// the only condition on copying the reply codec is that a reply carried one
 				if as, ok := is.Init.(*ast.AssignStmt); ok && len(as.Rhs) == 1 && c.str(as.Rhs[0]) == "callcmd.InputBodyCodec()" &&
+					c.str(is.Cond) == c.str(as.Lhs[0])+" != codec.NilCodecID" &&
 					strings.Contains(c.str(is.Body), "ctx.SetBodyCodec("+c.str(as.Lhs[0])+")") {
 					rcInit = true
 				}
